@@ -145,6 +145,14 @@ def main():
         variants.append(("one DSB with non-ASCII comment lines, no -s", synth.pcapng(pk, dsbs_before=[noisy]), None))
         variants.append(("one DSB before the packets, no -s, other working directory", synth.pcapng(pk, dsbs_before=[case.keylog]), None))
         variants.append(("two DSBs before the packets, no -s", synth.pcapng(pk, dsbs_before=["\n".join(lines[:half]) + "\n", "\n".join(lines[half:]) + "\n"]), None))
+        # a block's text need not end with a line terminator, and its length decides how many padding bytes follow it in the block:
+        # the last line unterminated, the text 0..3 bytes short of the 32-bit boundary
+        text = "\n".join(lines)
+        for pad in range(4):
+            t = "#" * ((pad - len(text)) % 4) + ("\n" if (pad - len(text)) % 4 else "") + text if (len(text) - pad) % 4 else text
+            if len(t.encode()) % 4 != pad:
+                t = "#" * ((pad - len(text) - 1) % 4) + "\n" + text
+            variants.append(("one DSB, last line unterminated, text length = %d mod 4, no -s" % (len(t.encode()) % 4), synth.pcapng(pk, dsbs_before=[t]), None))
         variants.append(("file (half) + DSB (other half, CRLF)", synth.pcapng(pk, dsbs_before=["\r\n".join(lines[half:]) + "\r\n"]), "\n".join(lines[:half]) + "\n"))
         if not has_quic:
             mid = rng.randrange(len(pk) + 1)
